@@ -97,6 +97,8 @@ class Driver(object):
         if ev.kind == 'frame' and ev.meta and (ev.meta.get('for') in self.withheld_args() or
                                                  (ev.meta.get('ping') is not None and self.ping_withheld(ev))):
           net.pending.remove(ev)       # this reply is never sent
+          if ev.meta.get('ping') is not None and getattr(self, 'ping_withheld_at', None) is None:
+            self.ping_withheld_at = lp.now()
           fired = True
           break
         net.fire(ev, 'ok')
@@ -289,6 +291,18 @@ class Driver(object):
         for box in self.open_results:
           if 'ok' not in box and 'exc' not in box:
             self.v('C08.open-pending', 'connection failed (%s) but an Open() result is still pending' % self._faults(), transport=self.kind)
+    # a multiplexed peer that stopped answering pings: once the ping timeout (5 s) has run out the transport must have given up
+    pw = getattr(self, 'ping_withheld_at', None)
+    if pw is not None and not faulted and not self.closed_by_us and now - pw > 5.0 + 0.5:
+      what = 'the peer left a Tping unanswered at +%.3f (now +%.3f)' % (pw - vloop.EPOCH, now - vloop.EPOCH)
+      if state != ChannelState.Closed:
+        self.v('C08.not-closed', '%s but the transport reports state %s' % (what, state), transport=self.kind, state=state)
+      if not self.faults_notified:
+        self.v('C08.no-fault-signal', '%s but the fault signal was never raised' % what, transport=self.kind)
+      for n in in_flight:
+        if not self.reqs[n]['timed_out']:
+          self.v('C08.in-flight-not-failed', '%s but request %s (issued +%.3f) was never answered'
+                 % (what, n, self.reqs[n]['issued'] - vloop.EPOCH), transport=self.kind)
     # every response given after the connection had failed must be an error
     for name, r in self.reqs.items():
       for (t, msg, stream) in self.responses(name):
@@ -399,6 +413,15 @@ def run_batch(params, fault_list):
     r = run_one(params, dict(f))
     out.append({'faults': f, 'viol': r['viol'], 'outcome': r['outcome']})
   return out
+
+
+def run_discard_probe(params):
+  """Used by C12: the frames the peer of the scripted scenario received (type, tag), in order, and the per-request outcome."""
+  world.reset()
+  world.set_chooser(None)
+  d = Driver(params, {})
+  d.run()
+  return {'frames': [list(f) for c in d._conns() for f in c.peer.frames], 'outcome': d.outcome()}
 
 
 def scripts():
